@@ -127,7 +127,7 @@ func runC01(c *Ctx) {
 			}
 		}
 		// script-taking constructors
-		for k := 0; k < c.Pick(12, 120); k++ {
+		for k := 0; k < c.Pick(16, 128); k++ {
 			script := randBytes(c.Rng, []int{0, 1, 20, 25, 32, 33, 55, 56, 64, 119, 120, 200, 520, 521, 1000, 10001}[k%16])
 			for _, ctor := range []string{"ScriptHash", "ScriptHash32", "LegacyScriptHash"} {
 				renderings(c, newAddr(c, ctor, net, script), ctor, net)
